@@ -1,6 +1,8 @@
 import Properties.C10
 import Proofs.MsgLayer.AckBudget
 import Proofs.MsgLayer.AckTimer
+import Proofs.MsgLayer.AckOwed
+import Proofs.MsgLayer.Deliver
 /-!
 # C10, trace level — acknowledgements are paid for by confirmable messages
 
@@ -103,6 +105,51 @@ theorem C10_ack_by_deadline (cfg : Cfg) (mid token : Nat) (drawFn : Nat → Nat)
   advance_fires fuel _ bound p
     (run_PInv (init_QInv cfg mid token drawFn) (init_PInv cfg mid token drawFn) es) hp hb hfuel
 
+-- the lower half: an acknowledgement is never forgotten ------------------------------------------
+
+/-- a confirmable request that is no duplicate opens its opportunity: message ID of the request,
+due `EMPTY_ACK_DELAY` after the arrival -/
+theorem recv_opens (s : State) (remote : Remote) (mcl : Bool) (w : Wire)
+    (hreq : isRequest w.code = true) (hc : w.mtype = .con) (hnew : isDup s remote w = false) :
+    (⟨remote, w.token, w.mid, s.now + s.cfg.emptyAckDelay⟩ : Piggy) ∈ (recv s remote mcl w).1.piggy := by
+  have hdd : dedupable w = true := by simp [dedupable, hreq, hc]
+  have hna : fitsReply w = false := by simp [fitsReply, hc]
+  have hc0 : (w.code == 0) = false := by
+    simp only [isRequest, Bool.and_eq_true, decide_eq_true_eq] at hreq
+    simp; omega
+  simp only [recv, hnew, Bool.false_eq_true, ↓reduceIte, hdd, hna, recvCode, hc0, Bool.false_and, hreq, hc,
+    beq_self_eq_true, Bool.true_or, Bool.and_self]
+  exact List.mem_of_find?_eq_some ((C10_request_opportunity _ remote w).2.1 hc).2
+
+/-- **C10 (the acknowledgement of a confirmable request is never forgotten).** Let a confirmable
+request `w` that is no duplicate arrive from `R` at time `t` in any reachable state whose message
+layer is not shut down, and let anything but a shutdown happen afterwards (`post`: responses of
+this or other handlers, other requests — also on the *same token* —, copies, timers, errors,
+cancellations, in any order).  Then at the end either an ACK under `w.mid` has gone to `R`, or the
+opportunity is still pending with its deadline `t + EMPTY_ACK_DELAY` — and then
+`C10_ack_by_deadline` sends the empty ACK at that time.  With `C10_ack_at_most_once`: exactly once.
+(Before the repair of `_process_request` a second request on the token made the message layer
+forget the first one's message ID; this theorem did not hold.) -/
+theorem C10_request_acknowledged (cfg : Cfg) (mid token : Nat) (drawFn : Nat → Nat) (pre post : List TEv)
+    (t : Nat) (R : Remote) (mcl : Bool) (w : Wire)
+    (hs : (run (init cfg mid token drawFn) pre).1.shutMsg = false)
+    (hreq : isRequest w.code = true) (hc : w.mtype = .con)
+    (hnew : isDup (run (init cfg mid token drawFn) pre).1 R w = false)
+    (hpost : ∀ e ∈ post, e.ev ≠ .shutdown) :
+    let s := (run (init cfg mid token drawFn) pre).1
+    let p : Piggy := ⟨R, w.token, w.mid, t + s.cfg.emptyAckDelay⟩
+    let s1 := (step s ⟨t, .recv R mcl w⟩).1
+    p ∈ (run s1 post).1.piggy ∨ AckedIn p (run s1 post).2 := by
+  intro s p s1
+  have hq : QInv s := run_QInv (init_QInv cfg mid token drawFn) pre
+  have hk : PInv s := run_PInv (init_QInv cfg mid token drawFn) (init_PInv cfg mid token drawFn) pre
+  have hp : p ∈ s1.piggy := by
+    have hs' : (setNow s t).shutMsg = false := hs
+    show p ∈ (handle (setNow s t) (.recv R mcl w)).1.piggy
+    simp only [handle, hs', Bool.false_eq_true, ↓reduceIte]
+    exact recv_opens (setNow s t) R mcl w hreq hc hnew
+  exact run_Owed (step_QInv hq _) (step_PInv hq hk _) hp post hpost
+
 -- non-vacuity -------------------------------------------------------------------------------
 
 def c10t0 : State := init c10Cfg 500 0 (fun _ => 20)
@@ -141,6 +188,34 @@ example : (∀ e ∈ c10NonRun, AppOk e.ev) ∧ conRecvs 1 74 c10NonRun = 0 ∧ 
     ackCount 1 74 (run c10t0 c10NonRun).2 = 0 ∧ ackCount 1 75 (run c10t0 c10NonRun).2 = 0 ∧
     (sendsOf (run c10t0 c10NonRun).2).map (fun x => (x.1, x.2.2.mtype, x.2.2.code, x.2.2.mid)) =
       [(8, .non, 69, 500)] := by decide
+
+/-- a CON request (id 70, token [1]) is followed within EMPTY_ACK_DELAY by another CON request on
+the same token (id 71): the first one gets its empty ACK at once (time 8), the second one its own
+at 8 + 10; a NON request on the token (id 72) at 30 with an unacknowledged CON (id 73, at 28)
+before it: 73 is acknowledged at 30 and the response to 72 leaves as a NON under a fresh ID -/
+def c10ReuseRun : List TEv :=
+  [⟨5, .recv 1 false (c10Req .con 70)⟩, ⟨8, .recv 1 false (c10Req .con 71)⟩, ⟨18, .fireEmptyAck 1 [1]⟩,
+   ⟨28, .recv 1 false (c10Req .con 73)⟩, ⟨30, .recv 1 false (c10Req .non 72)⟩,
+   ⟨33, .respond 3 (c10Resp 0) true⟩]
+
+example : (sendsOf (run c10t0 c10ReuseRun).2).map (fun x => (x.1, x.2.2.mtype, x.2.2.code, x.2.2.mid)) =
+    [(8, .ack, 0, 70), (18, .ack, 0, 71), (30, .ack, 0, 73), (33, .non, 69, 500)] ∧
+    (run c10t0 c10ReuseRun).1.piggy = [] := by decide
+
+/-- misfits aimed at an exchange in flight (our CON request, id 500): an ACK and a RST carrying a
+request code, a RST carrying a response code — nothing changes, the exchange stays; a genuine CON
+request under ID 500 afterwards is delivered (no duplicate) -/
+def c10MisfitRun : List TEv :=
+  [⟨5, .submit 0 1 false false
+      { mtype := none, reliability := some true, code := 1, obs := none, body := 0, noResponse := 0, maxRetr := 4 }⟩,
+   ⟨7, .recv 1 false { mtype := .ack, code := 1, mid := 500, token := [1], obs := none, body := 0 }⟩,
+   ⟨8, .recv 1 false { mtype := .rst, code := 1, mid := 500, token := [1], obs := none, body := 0 }⟩,
+   ⟨9, .recv 1 false { mtype := .rst, code := 69, mid := 500, token := [1], obs := none, body := 0 }⟩]
+
+example : (run c10t0 c10MisfitRun).1.exchanges.length = 1 ∧ (run c10t0 c10MisfitRun).1.recent = [] ∧
+    (run c10t0 c10MisfitRun).2.length = 1 ∧
+    deliverCount 1 500 (run c10t0 (c10MisfitRun ++ [⟨12, .recv 1 false (c10Req .con 500)⟩])).2 = 1 := by
+  decide
 
 /-- the theorems apply to these runs (hypotheses discharged by evaluation) -/
 example : ackCount 1 71 (run c10t0 c10OnceRun).2 ≤ 1 :=
